@@ -466,6 +466,13 @@ Definition case_submit (nw : N) (cap : N) (ops : list Z) : list Z :=
   let '(e, obs) := run_submits cap (init (N.to_nat nw)) 0 ops in
   obs ++ [Z.of_N (total_queued e); if is_idle e then 1%Z else 0%Z].
 
+(* one worker on a current-thread runtime, tasks that finish at once, all submitted before the worker
+   is first polled: accept bits, then the order in which the tasks are executed *)
+Definition case_order (fixed : bool) (cap : N) (ops : list Z) : list Z :=
+  let '(e, obs) := run_submits cap (init 1) 0 ops in
+  let e' := rounds fixed (length ops) e in
+  obs ++ [(-7)%Z] ++ map (fun t => Z.of_N (tid t)) (edone e') ++ [(-7)%Z; Z.of_N (total_queued e')].
+
 (* the stage function shared with the harness: fails on x = 13 (mod 16), else 3x+1 *)
 Definition stage (x : Z) : option Z :=
   if (x mod 16 =? 13)%Z then None else Some (3 * x + 1)%Z.
@@ -495,12 +502,13 @@ Definition case_coll (maxb : N) (ops : list Z) : list Z :=
   let c := run_coll maxb (mkC [] []) ops in
   flat_map (fun b => b ++ [(-1)%Z]) (cout c) ++ [(-2)%Z] ++ cbuf c.
 
-(* kind 0 queue, 1 submit, 2 parallel_map / process_batch, 3 reduce, 4 collector *)
+(* kind 0 queue, 1 submit, 2 parallel_map / process_batch, 3 reduce, 4 collector, 5 single-worker execution order *)
 Definition run_case (fixed : bool) (kind a b : N) (ops : list Z) : list Z :=
   match kind with
   | 0 => case_queue fixed a b ops
   | 1 => case_submit a b ops
   | 2 => case_pmap ops
   | 3 => case_reduce a ops
-  | _ => case_coll a ops
+  | 4 => case_coll a ops
+  | _ => case_order fixed a ops
   end.
